@@ -395,7 +395,7 @@ func c19(r *engine.Report, p *engine.Program) {
 		n := engine.FuncName(engine.Outermost(a.Fn))
 		if a.Kind == engine.AccRange || a.Kind == engine.AccMapLookup {
 			rangers = append(rangers, n)
-			if !okRange[n] {
+			if !okRange[n] && privateHelperOf(p, engine.Outermost(a.Fn), okRange) == "" {
 				badRangers = append(badRangers, n)
 			}
 		}
